@@ -26,7 +26,7 @@ META = {
     'stubs': ['scipy.linalg.eig = Perron contract', 'COO contract (SymCOO) + scipy.sparse shadow symnp/sparse.py (conformance-checked in the C04/C07/C08/C11 checks)', 'connected_components contract',
               'aslinearoperator(T).rmatvec(p) = T^T.p', 'log uninterpreted'],
     'assumptions': ['exact real arithmetic', 'transition matrices irreducible for the spectral part'],
-    'outside': ['save/load round trip (Matrix-Market text, pickle, csv via the file system)', 'ARPACK path (n >= 1000)',
+    'outside': ['save/load round trip through the file system (Matrix-Market text, pickle); the state mapping\'s csv text form IS checked in memory', 'ARPACK path (n >= 1000)',
                 'synthetic_trajectory (random sampling)'],
 }
 
@@ -96,6 +96,17 @@ def flat(x):
     return out
 
 
+def mapping_roundtrip(tm, mapping):
+    """the state mapping written with TrimMapping.write (what MSM.save stores as mapping.csv) and read back is the same mapping;
+    in memory - the rest of save/load goes through the file system and is outside the claim"""
+    import io
+    buf = io.StringIO()
+    mapping.write(buf)
+    buf.seek(0)
+    back = tm.TrimMapping.read(buf)
+    return bool(back == mapping) and dict(back.to_original) == dict(mapping.to_original)
+
+
 def fit_job(lengths, S, lag, builder, trim, sliding, late_params=False, explicit=True):
     tm = loader.load('enspara.msm.transition_matrices')
     mm = loader.load('enspara.msm.msm')
@@ -142,6 +153,7 @@ def fit_job(lengths, S, lag, builder, trim, sliding, late_params=False, explicit
             exp = pipeline(build(trajs, False), method)
             exp = (dn(exp[0]), dn(exp[1]), dn(exp[2]), dict(exp[3].to_original))
             cfg_ok = (m.config['lag_time'] == lag and m.config['trim'] == trim and m.config['sliding_window'] == sliding)
+            rt_ok = mapping_roundtrip(tm, m.mapping_)
         except Exception as e:
             if os.environ.get('VERIF_DEBUG'):
                 import traceback
@@ -180,6 +192,7 @@ def fit_job(lengths, S, lag, builder, trim, sliding, late_params=False, explicit
                     e2 = pipeline(build(cv, True), method)
                     e2 = (dn(e2[0]), dn(e2[1]), dn(e2[2]), dict(e2[3].to_original))
                     cfg2 = (m2.config['sliding_window'] == sliding)
+                    rt2 = mapping_roundtrip(tm, m2.mapping_)
                 except Exception as e:
                     out.update(exception=repr(e), out=None, violated=['raises ' + type(e).__name__],
                                signature='exception:' + type(e).__name__)
@@ -188,6 +201,8 @@ def fit_job(lengths, S, lag, builder, trim, sliding, late_params=False, explicit
             bad = run_oracle(compare(g2, e2, tol=True))
             if not cfg2:
                 bad.append('config-does-not-report-the-requested-sliding_window')
+            if not rt2:
+                bad.append('state-mapping-changed-by-write/read')
             out['violated'] = bad
             out['skip_compare'] = True
             return out
@@ -196,6 +211,7 @@ def fit_job(lengths, S, lag, builder, trim, sliding, late_params=False, explicit
                            desc='raises %s: %s' % (type(exc).__name__, str(exc)[:100]))
         obs = compare(got, exp)
         obs.append(('config-reports-the-requested-settings', cfg_ok))
+        obs.append(('state-mapping-survives-write/read (the text form MSM.save stores)', rt_ok))
         return PathOut(obs, {'tcounts_': got[0], 'tprobs_': got[1], 'eq_probs_': got[2]}, witness,
                        desc='fit lengths=%s lag=%d %s trim=%s sliding=%s' % (lengths, lag, builder, trim, sliding))
     return path
@@ -431,6 +447,12 @@ def jobs(tier):
                             # id can occur in one place only
                             add('fit_job', 'fit[%s,lag=%d,%s,trim=%s,sliding=%s,inferred state count]' % (list(L), lag, builder, trim, sliding),
                                 lengths=L, S=3, lag=lag, builder=builder, trim=trim, sliding=sliding, explicit=False)
+    # four states in two trajectories: the count graph can fall into several strongly connected pieces although every state has
+    # transitions in and out (two back-and-forth pairs) - fit with trimming must keep exactly what trim_disconnected keeps
+    for builder in ('normalize-noeq', 'transpose'):
+        add('fit_job', 'fit[[3, 3],4 states,lag=1,%s,trim=True]' % builder, lengths=(3, 3), S=4, lag=1, builder=builder, trim=True, sliding=True)
+    add('fit_job', 'fit[[3, 3],4 states inferred,lag=1,normalize-noeq,trim=True]', lengths=(3, 3), S=4, lag=1, builder='normalize-noeq', trim=True,
+        sliding=True, explicit=False)
     for n in (2, 3):       # n=4 was tried: every query ends `unknown` (quartic characteristic polynomial), so it is not claimed
         if n <= 2 or not q:
             add('spectrum_job', 'spectrum[n=%d,all,left]' % n, n=n)
